@@ -90,13 +90,13 @@ def rule_pagination(ck):
     w = whiles[0]
     reg = cfg.loop_region(w)
     # the item loop: a `for` over <page>['_items'] that yields
-    fors = [n for n in reg if n.kind == "for" and canon(n.stmt.iter).endswith("['_items']")]
+    fors = [n for n in reg if n.kind == "for" and (canon(n.stmt.iter).endswith("['_items']") or canon(fl.expand(n.stmt.iter, n)).endswith("['_items']"))]
     ck.require(len(fors) == 1, "C20.R2", f, fors[0].stmt.iter if fors else "for s in payload['_items']", ok="iterates the items of the page", bad=f"{len(fors)} loops over a page's '_items' (need 1)",
                sink="page:items")
     if len(fors) != 1:
         return
     lp = fors[0]
-    page = canon(lp.stmt.iter.value)
+    page = canon(lp.stmt.iter.value) if isinstance(lp.stmt.iter, ast.Subscript) else None
     inner = cfg.loop_region(lp)
     esc = [n for n in inner if n.kind in ("break", "continue", "return")]
     conds = [n for n in inner if n.kind == "test"]
@@ -120,8 +120,8 @@ def rule_pagination(ck):
         leak = seen & (others | {cfg.exit, n})
         ck.require(not leak, "C20.R2", f, c, ok="the page fetched here goes through the item loop before anything replaces it",
                    bad="a fetched page can be replaced (or the generator can end) before its items were yielded", sink="page:consume-first")
-    if page and page.isidentifier():
-        res = canon(_gexpand(fl, ast.Name(id=page, ctx=ast.Load()), lp))
+    if (page and page.isidentifier()) or page is None:
+        res = canon(_gexpand(fl, ast.Name(id=page, ctx=ast.Load()) if page else lp.stmt.iter, lp))
         ck.require(".json()" in res and "requests.get(" in res, "C20.R2", f, lp.stmt.iter, ok="the item loop reads the fetched page", bad="the page iterated by the item loop is not the JSON body of a request", sink="page:is-json")
     # URLs: first-page URL or the current page's next link
     kinds = set()
@@ -131,7 +131,7 @@ def rule_pagination(ck):
             while isinstance(u, ast.IfExp):
                 # page_url = next-url if 'next' in links else None
                 u = u.body if not (isinstance(u.body, ast.Constant) and u.body.value is None) else u.orelse
-            us = canon(u)
+            us = _flat_add(u)
             if isinstance(u, ast.Constant) and u.value is None:
                 continue
             if "['_links']['next']['href']" in us and us.startswith("self.url + "):
@@ -162,6 +162,20 @@ def rule_pagination(ck):
         ck.require(impossible, "C20.R2", f, x.stmt if x.kind != "edge" else w.expr, ok="this exit cannot be taken while the current page has a 'next' link",
                    bad=f"the pagination can stop on `{src(x.stmt if x.kind != 'edge' else w.expr, 50)}` although the current page still links to a next page: later sessions are never yielded",
                    sink="page:exit")
+
+
+def _flat_add(u):
+    """canonical text of a string concatenation with the grouping removed: a + (b + c) reads like a + b + c"""
+    terms = []
+
+    def go(x):
+        if isinstance(x, ast.BinOp) and isinstance(x.op, ast.Add):
+            go(x.left)
+            go(x.right)
+        else:
+            terms.append(canon(x))
+    go(u)
+    return " + ".join(terms)
 
 
 def _norm_links(e):
@@ -303,8 +317,8 @@ def rule_params(ck):
     firsts = []
     for n, c in gets:
         u = canon(fl.expand(c.args[0], n)) if c.args else ""
-        if "'sessions/' + " in u:
-            firsts.append((n, c, u))
+        if "'sessions/' + " in u and "['_links']" not in u and '["_links"]' not in u:
+            firsts.append((n, c, u))      # (a follow-up request's URL derives from the previous payload, whose own URL it thereby mentions)
     ck.require(len(firsts) >= 1, "C20.R3", f, "first request", bad="no request to the sessions/<site> endpoint", sink="params:first")
     for n, c, u in firsts:
         ck.require("self.url" in u and f"'sessions/' + {site}" in u and ".join(" in u and "'/ts/'" in u, "C20.R3", f, c,
